@@ -752,20 +752,52 @@ func sideByType(fn *ssa.Function, ct map[*types.Named]bool) bool {
 // the per-version semantics, so under go >= 1.22 the variable is allocated per iteration and nothing is reported.
 type loopCapture struct {
 	fn   *ssa.Function
-	goAt *ssa.Go
+	goAt ssa.Instruction // the go statement, or the closure that outlives its iteration
 	v    *ssa.Alloc
+	kept bool // a closure handed on / stored (not a goroutine)
 }
 
 func loopVarCaptures(c *Ctx, fns []*ssa.Function) (captures []loopCapture, goInLoops int) {
 	for _, fn := range fns {
 		ir.EachInstr(fn, func(_ *ssa.BasicBlock, _ int, in ssa.Instruction) {
-			g, ok := in.(*ssa.Go)
-			if !ok || !flow.InCycle(g.Block()) {
-				return
-			}
-			goInLoops++
-			mc, ok := g.Call.Value.(*ssa.MakeClosure)
-			if !ok {
+			var mc *ssa.MakeClosure
+			kept := false
+			var g ssa.Instruction
+			switch x := in.(type) {
+			case *ssa.Go:
+				if !flow.InCycle(x.Block()) {
+					return
+				}
+				goInLoops++
+				m, ok := x.Call.Value.(*ssa.MakeClosure)
+				if !ok {
+					return
+				}
+				mc, g = m, x
+			case *ssa.MakeClosure:
+				// a closure made in a loop that outlives its iteration: handed to a call, stored, boxed or returned
+				if !flow.InCycle(x.Block()) || x.Referrers() == nil {
+					return
+				}
+				for _, r := range *x.Referrers() {
+					switch u := r.(type) {
+					case *ssa.Go:
+						return // counted above
+					case ssa.CallInstruction:
+						for _, a := range u.Common().Args {
+							if a == ssa.Value(x) {
+								kept = true
+							}
+						}
+					case *ssa.Store, *ssa.Return, *ssa.MakeInterface, *ssa.MapUpdate, *ssa.ChangeType:
+						kept = true
+					}
+				}
+				if !kept {
+					return
+				}
+				mc, g = x, x
+			default:
 				return
 			}
 			for _, b := range mc.Bindings {
@@ -785,7 +817,7 @@ func loopVarCaptures(c *Ctx, fns []*ssa.Function) (captures []loopCapture, goInL
 					}
 				}
 				if iter {
-					captures = append(captures, loopCapture{fn, g, al})
+					captures = append(captures, loopCapture{fn, g, al, kept})
 				}
 			}
 		})
